@@ -54,6 +54,13 @@ def binding_obligations(ip, ctx, base, run, kind):
         obs.append(Obligation(base + "/one_reply_per_frame", ctx, nreads == len(writes)))
     # however the call ends, no frame is left unanswered on a connection that stays open: the reply would be taken for the
     # answer to the next operation's login and every later session id would be the previous operation's
+    # every connection starts with a login: an operation that opens a connection itself must not put a command frame on it first
+    opened = [j for j, e in enumerate(ctx.ghost.events) if e[0] == "open_connection"]
+    if opened:
+        later_writes = [e[1] for e in ctx.ghost.events[opened[-1]:] if e[0] == "write"]
+        obs.append(Obligation(base + "/a_connection_the_operation_opens_itself_starts_with_a_login", ctx,
+                              not later_writes or ip.equals(later_writes[0], want_login, ctx) is True,
+                              note=f"{len(later_writes)} frame(s) written after re-connecting"))
     closed = any(e[0] == "close" for e in ctx.ghost.events)
     obs.append(Obligation(base + "/no_unread_reply_left_on_the_open_connection", ctx, nreads == len(writes) or closed,
                           note=f"{len(writes)} frames written, {nreads} replies read"))
